@@ -27,4 +27,13 @@ theorem pool20 : GenV20.pool_new = ["splitPool:New=make([]string, 14)"] ∧ GenV
 /-- the package imports exactly these standard packages (no `os`, `time`, `runtime`, `reflect`, `C`, no module-internal package:
     nothing through which the environment, the clock, the scheduler or foreign code could reach the translated functions) -/
 theorem imports20 : GenV20.pkg_imports = ["errors", "fmt", "math", "strings", "sync", "unsafe"] := by decide
+/-- files and initialisers outside what the translator reads: the hooks file declares only the `Verif…` accessors (no `init`, no
+    variable, no import), no file of the directory belongs to another platform's or another tag's build, and the only package-level
+    initialisers that run code are the `errors.New` sentinels and the pool's `New` closure -/
+theorem files20 : GenV20.hook_decls = ["zz_verif_hooks.go:func VerifBytes", "zz_verif_hooks.go:func VerifFromBytes", "zz_verif_hooks.go:func VerifLenVec", "zz_verif_hooks.go:func VerifPoolGet", "zz_verif_hooks.go:func VerifPoolPut", "zz_verif_hooks.go:func VerifRound", "zz_verif_hooks.go:func VerifSplit"] ∧
+    GenV20.pkg_other_files = [] ∧
+    GenV20.pkg_var_inits = ["ErrInvalidMetricOrder:call errors.New", "ErrInvalidMetricValue:call errors.New", "ErrTooShortVector:call errors.New", "splitPool:call make,funclit"] := by decide
+/-- which function mentions which package-level table or pool (the `error` sentinels aside): nothing else in the package —
+    no `Error()` method, initialiser or untranslated helper — can read or write them, whatever aliasing it might use -/
+theorem uses20 : GenV20.pkg_var_uses = ["ParseVector:order", "ParseVector:splitPool"] := by decide
 end StateTie
